@@ -263,3 +263,37 @@ def xor_key(r, magic=None):
             return (magic + rb(r, n))[:max(4, n)]
         return bytes([r.randrange(1, 256)]) * n
     return rb(r, n)
+
+
+def long_chain(r, coin, n, addresses=60, txs_per_block=1, spend_every=5, auxpow=False):
+    """n small linked blocks: what only shows at scale — hundreds of thousands of rows, counters and sums past 2^16 / 2^32 / 2^53 / 2^63,
+    a UTXO map that grows and shrinks over a long history (outputs spent thousands of blocks after they were created), many distinct
+    addresses, thousands of OP_RETURN lines.  Values are ~5*10^15 per coinbase so that the running volume leaves 2^53 after two blocks
+    and 2^63 after ~1800, and stays below 2^64 for n <= 3500 (larger n scale the value down)."""
+    pool = [b"\x76\xa9\x14" + rb(r, 20) + b"\x88\xac" for _ in range(addresses)]
+    unit = (5 * 10**15) if n <= 3500 else (17 * 10**18) // (n + 1)
+    blocks, prev, avail = [], b"\0" * 32, []
+    for h in range(n):
+        outs = [(unit + h, pool[(h * 7) % addresses])]
+        if h % 7 == 0:
+            outs.append((0, b"\x6a" + bytes([4 + h % 60]) + (b"n%06d" % h + b"." * 60)[:4 + h % 60]))
+        cbx = K.Tx([(b"\0" * 32, 0xffffffff, bytes([3, h & 255, (h >> 8) & 255, (h >> 16) & 255]), 0xffffffff)], outs)
+        txs = [cbx]
+        avail.append((cbx.txid(), 0))
+        for j in range(txs_per_block - 1):
+            txs.append(K.Tx([(rb(r, 32), j, b"\x01\x01", 0xffffffff)], [(1 + j, pool[(h + j) % addresses])]))
+        if h % spend_every == spend_every - 1 and len(avail) > 3:
+            # spends reach far back: the oldest unspent output and a random one
+            ins = [avail.pop(0), avail.pop(r.randrange(len(avail)))]
+            t = K.Tx([(a, i, b"\x01\x01", 0xffffffff) for a, i in ins], [(r.randrange(1, 10**12), pool[r.randrange(addresses)]), (7, pool[(h * 3) % addresses])])
+            txs.append(t)
+            avail += [(t.txid(), 0), (t.txid(), 1)]
+        version = 1
+        aux = None
+        if auxpow and coin in K.AUXPOW:
+            version = K.AUXPOW[coin] | (h & 0xff)
+            aux = K.auxpow_section(r)
+        b = K.Block(txs, prev=prev, version=version, time=(1231006505 + 600 * h + (r.randrange(-3000, 3000) if h % 11 == 0 else 0)) & 0xffffffff, nonce=h, auxpow=aux)
+        prev = b.hash()
+        blocks.append(b)
+    return blocks
